@@ -38,6 +38,11 @@ def run(ctx):
                 svc = 's_%s_%d' % (pk, b)
                 conf += 'icap_service %s respmod_precache icap://127.0.0.1:%d/%s/p%s bypass=%s\n' % (svc, icap.port, svc, pv, 'on' if b else 'off')
                 conf += 'acl a_%s urlpath_regex ^/c60/%s/\nadaptation_access %s allow a_%s\n' % (svc, svc, svc, svc)
+        for pk, pv in PREV.items():
+            for b in (0, 1):
+                svc = 'q_%s_%d' % (pk, b)
+                conf += 'icap_service %s reqmod_precache icap://127.0.0.1:%d/%s/p%s bypass=%s\n' % (svc, icap.port, svc, pv, 'on' if b else 'off')
+                conf += 'acl a_%s urlpath_regex ^/c60q/%s/\nadaptation_access %s allow a_%s\n' % (svc, svc, svc, svc)
         sq = squidctl.Squid(ctx, tree, name='c60', clock=False, conf_extra=conf)
         sq.start()
         rec = peers.Rec()
@@ -74,23 +79,102 @@ def run(ctx):
             produced_adapted = p['icap'] in ('200', '100then200', 'abortMidBody')
             out.append({'vv': vv, 'lv': lv, 'va': va if produced_adapted else -1, 'la': la, 'bypass': bool(p['bypass']), 'icapFail': icap_fail, 'squidError': bool(squid_err),
                         'hv': hv, 'bv': bv, 'blen': len(r.body), 'intact': bool(intact), 'complete': bool(r.complete), 'status': r.status or 0, 'par': p, 'pred': sc['pred'], 'n': n})
+        # REQMOD: the message is the client's upload and "delivered" is what the origin receives.  Big uploads towards an origin
+        # that reads late behind a small window make the echo after a 204 / a bypassed failure proceed in partial steps.
+        got = {}
+
+        async def qresponder(q, oc):
+            got[q.target.rstrip('/').split('/')[-1]] = q
+            await oc.send(peers.response_head(200, 'OK', [('Content-Length', '2'), ('Cache-Control', 'no-store')]) + b'ok')
+            return False
+        qfast = await peers.Origin(rec, qresponder, name='qf').start()
+        qslow = await peers.Origin(rec, qresponder, name='qs', stall=1.5, rcvbuf=4096).start()
+
+        async def one_q(i, p):
+            r0 = random.Random(ctx.seed * 7001 + i)
+            n = 'q%d' % i
+            lv = p['size'] + r0.randrange(0, 17)
+            vv, va = 2 * i + 1, 2 * i + 2
+            la = r0.choice([0, 30, 9000, 80000])
+            plan[n] = {'kind': p['icap'], 'va': va, 'la': la, 'abody': peers.body_bytes(va, la), 'aframing': p['aframing'], 'vid': n}
+            svc = 'q_%s_%d' % (p['preview'], 1 if p['bypass'] else 0)
+            o = qslow if p['slow'] else qfast
+            url = 'http://127.0.0.1:%d/c60q/%s/%s' % (o.port, svc, n)
+            body = peers.body_bytes(vv, lv)
+            hs = [('X-Verif-Version', str(vv)), ('Connection', 'close')]
+            if p['framing'] == 'chunked':
+                hs.append(('Transfer-Encoding', 'chunked'))
+                wire, pos = [], 0
+                while pos < lv:
+                    k = min(lv - pos, r0.choice([1, 100, 4096, 65536, 200000]))
+                    wire.append(b'%x\r\n' % k + body[pos:pos + k] + b'\r\n')
+                    pos += k
+                wire.append(b'0\r\n\r\n')
+                payload = b''.join(wire)
+            else:
+                hs.append(('Content-Length', str(lv)))
+                payload = body
+            c = peers.Client(rec, sq.port, name='c' + n)
+            status = 0
+            try:
+                await c.open()
+                try:
+                    await asyncio.wait_for(c.send(peers.request_bytes('POST', url, hs, vid=n, host='127.0.0.1:%d' % o.port) + payload), 40.0)
+                except (asyncio.TimeoutError, ConnectionError, OSError):
+                    pass
+                r = await c.response('POST', 40.0, vid=n)
+                status = r.status or 0
+                c.close()
+            except OSError:
+                pass
+            q = got.get(n)
+            hv, bv, intact, blen, complete = -1, -1, True, 0, False
+            if q is not None:
+                hv = int(q.head.get('X-Verif-Version') or -1)
+                blen, complete = len(q.body), bool(q.complete)
+                if q.body and hv >= 0:
+                    intact, _ = peers.project_body(q.body, hv)
+                    bv = hv if intact else -2
+            icap_fail = 'early' if p['icap'] in ('status500', 'abortBeforeReply', 'abortMidHead', 'garbage') else ('late' if (p['icap'] == 'abortMidBody' and la > 0) else 'none')
+            produced_adapted = p['icap'] in ('200', '100then200', 'abortMidBody')
+            out.append({'vv': vv, 'lv': lv, 'va': va if produced_adapted else -1, 'la': la, 'bypass': bool(p['bypass']), 'icapFail': icap_fail, 'squidError': q is None,
+                        'hv': hv, 'bv': bv, 'blen': blen, 'intact': bool(intact), 'complete': bool(complete), 'status': status, 'par': dict(p, mode='reqmod'),
+                        'pred': None, 'n': n})
+        qplans = []
+        for icapk, byp in (('204', 0), ('204preview', 0), ('204preview', 1), ('status500', 1), ('abortBeforeReply', 1), ('200', 0), ('100then200', 0), ('status500', 0)):
+            for prev in (('small', 'zero', 'off', 'huge') if ctx.thorough else ('small', 'off')):
+                for size in ((300, 70000, 1500000, 3000001, 6500000) if ctx.thorough else (300, 70000, 3000001)):
+                    for framing in ('length', 'chunked'):
+                        for slow in ((0, 1) if size > 1000000 else (0,)):
+                            qplans.append({'icap': icapk, 'bypass': byp, 'preview': prev, 'size': size, 'framing': framing, 'slow': slow,
+                                           'aframing': 'length' if (len(qplans) % 3) else 'none'})
         try:
             await escen.gather_limited([one(i, s) for i, s in enumerate(scens)], limit=8)
+            await escen.gather_limited([one_q(i, p) for i, p in enumerate(qplans)], limit=6)
             if not sq.alive():
                 ctx.violation('squid exited during the run', {'kind': 'exit', 'log': sq.tail_log()})
         finally:
             await origin.stop()
+            await qfast.stop()
+            await qslow.stop()
             await icap.stop()
             sq.stop()
         return icap.log
     ilog = asyncio.run(main())
-    cases = [{k: o[k] for k in ('vv', 'lv', 'va', 'la', 'bypass', 'icapFail', 'squidError', 'hv', 'bv', 'blen', 'intact', 'complete')} for o in out]
+    # a 204 the service was entitled to send (inside a preview, or the request carried Allow: 204) and no failure anywhere: the
+    # virgin message, whole, is the only outcome left
+    byurl = {l['url'].rstrip('/').split('/')[-1]: l for l in ilog}
+    for o in out:
+        l = byurl.get(o['n'])
+        o['mustVirgin'] = bool(l and o['icapFail'] == 'none' and ((o['par']['icap'] == '204preview' and l['preview'] is not None) or
+                                                                  (o['par']['icap'] in ('204', '204preview', '100then204') and l['allow204'])))
+    cases = [{k: o[k] for k in ('vv', 'lv', 'va', 'la', 'bypass', 'icapFail', 'squidError', 'hv', 'bv', 'blen', 'intact', 'complete', 'mustVirgin')} for o in out]
     prej, _ = ucheck.conformance(ctx, os.path.join(SPEC, 'Conf_Icap.tla'), os.path.join(SPEC, 'Conf_Icap.cfg'), cases, 'icap')
     ctx.log('%d transactions through ICAP (%d ICAP requests seen); P-rejected %d' % (len(out), len(ilog), len(prej)))
     seen_cls = set()
     for i in prej:
         o = out[i]
-        cls = {'icap': o['par']['icap'], 'virgin_body_over_64k': o['lv'] > 65535, 'preview': o['par']['preview'], 'bypass': o['par']['bypass'],
+        cls = {'mode': o['par'].get('mode', 'respmod'), 'icap': o['par']['icap'], 'virgin_body_over_64k': o['lv'] > 65535, 'preview': o['par']['preview'], 'bypass': o['par']['bypass'],
                'outcome': 'error-instead-of-virgin' if (o['squidError'] and o['icapFail'] == 'early' and o['par']['bypass']) else 'other'}
         key = json.dumps(cls, sort_keys=True)
         if key in seen_cls or len(seen_cls) >= 12:
@@ -101,6 +185,8 @@ def run(ctx):
             json.dumps(o['par']), o['status'], o['hv'], o['vv'], o['lv'], o['va'], o['blen'], o['complete'], o['squidError']), {'kind': 'icap', 'class': cls, 'case': o})
     nd = 0
     for o in out:
+        if o['pred'] is None:
+            continue
         got = 'error' if o['squidError'] else ('virgin' if o['hv'] == o['vv'] else ('adapted' if o['complete'] else 'truncated-adapted'))
         if got != o['pred']:
             nd += 1
@@ -109,10 +195,24 @@ def run(ctx):
     ctx.cov['drift_total'] = nd
     ctx.cov['impl_distinct'] = len({json.dumps(o['par'], sort_keys=True) for o in out})
     ctx.cov['icap_requests_seen'] = len(ilog)
+    qs = [o for o in out if o['par'].get('mode') == 'reqmod']
+    ctx.cov['reqmod_transactions'] = len(qs)
+    ctx.cov['reqmod_origin_received'] = {k: sum(1 for o in qs if ('nothing' if o['squidError'] else ('virgin' if o['hv'] == o['vv'] else 'adapted')) == k) for k in ('virgin', 'adapted', 'nothing')}
+    ctx.cov['reqmod_big_virgin_echoed_complete'] = sum(1 for o in qs if o['lv'] > 1000000 and o['hv'] == o['vv'] and o['complete'] and o['intact'])
+    tab = {}
+    for o in qs:
+        k = '%s/bypass=%d/preview=%s/%s' % (o['par']['icap'], o['par']['bypass'], o['par']['preview'], 'over64k' if o['lv'] > 65535 else 'small')
+        r = 'nothing' if o['squidError'] else ('virgin' if o['hv'] == o['vv'] else 'adapted')
+        tab.setdefault(k, {}).setdefault(r, 0)
+        tab[k][r] += 1
+    ctx.cov['reqmod_outcomes'] = tab
+    ctx.cov['must_be_virgin_cases'] = sum(1 for o in out if o['mustVirgin'])
     ctx.cov['previews_seen'] = sum(1 for l in ilog if l['preview'] is not None)
     ctx.cov['delivered'] = {k: sum(1 for o in out if ('error' if o['squidError'] else ('virgin' if o['hv'] == o['vv'] else 'adapted')) == k) for k in ('virgin', 'adapted', 'error')}
     for o in out[:2]:
         ctx.sample({k: o[k] for k in o if k != 'n'})
     ctx.cov['rule'] = ('classes = IcapScen.tla (body units x preview off/0/100/huge x ICAP behaviour 200/204/204-in-preview/100-continue/500/abort before reply, mid head, mid body/garbage x bypass x adapted header with/without Content-Length); '
-                       'RESPMOD through a scripted ICAP server; TLC evaluates Icap.tla on what the client received.')
-    ctx.assumptions += ['RESPMOD only (REQMOD is not exercised)', 'icap_206_enable off: 206/use-original-body is a legitimate fourth outcome outside the statement']
+                       'RESPMOD through a scripted ICAP server; TLC evaluates Icap.tla on what the client received. '
+                       'REQMOD: ICAP behaviour x preview x upload size up to 6.5 MB x Content-Length/chunked x origin reading at once / late behind a 4 KB window; '
+                       'Icap.tla is evaluated on what the origin received.')
+    ctx.assumptions += ['icap_206_enable off: 206/use-original-body is a legitimate fourth outcome outside the statement']
